@@ -80,6 +80,9 @@ def _check_main(run, P):
     run.do(_const, run, P)
     run.do(_operands, run, P)
     run.do(_total, run, P)
+    run.rule("C09.single", "a call in expression context takes its kind from a function "
+             "with exactly one result", minimum=2)
+    run.do(_single, run, P)
     run.do(_arity_tables, run, P)
     run.do(_unify_real, run, P)
     run.do(_real, run, P)
@@ -139,14 +142,35 @@ def _operands(run, P):
     C = P.cls(f"{DATA}.KindInferenceMapper")
     CM = P.cls("pymbolic.mapper.CombineMapper")
     from .c18 import _rec_children
-    for name in sorted(ARITH):
+    for name in sorted(ARITH) + ["map_if"]:
         f = P.method(C, name)
         lib = CM.methods.get(name)
+        if name == "map_if" and (f is None or f.cls is not C):
+            continue        # conditional expressions have no kind rule (they are expanded first)
         if f is None or lib is None:
             raise AnalysisError(f"KindInferenceMapper.{name} / CombineMapper.{name} not found")
         need = _rec_children(lib)
+        if name == "map_if":
+            need = need - {"condition"}      # the value is one of the branches
         got = _joined_children(P, C, f)
         missing = need - got
+        if missing and not got:
+            # nothing recognised: either the handler returns out of its loop over the
+            # operands with the kind of the one in hand (decided), or it is written in a
+            # way this clause does not read (not decided)
+            e = f.arg(0)
+            early = [r for lp in ast.walk(f.node) if isinstance(lp, ast.For)
+                     and isinstance(lp.target, ast.Name)
+                     for r in ast.walk(lp) if isinstance(r, ast.Return)
+                     and isinstance(r.value, ast.Call) and dotted(r.value.func) == "self.rec"
+                     and r.value.args and dotted(r.value.args[0]) == lp.target.id]
+            single = [r for r in ast.walk(f.node) if isinstance(r, ast.Return)
+                      and isinstance(r.value, ast.Call) and dotted(r.value.func) == "self.rec"
+                      and r.value.args and isinstance(r.value.args[0], ast.Attribute)
+                      and dotted(r.value.args[0].value) == e]
+            if not early and not single:
+                raise AnalysisError(f"KindInferenceMapper.{name}: how operand kinds reach the "
+                                    f"result is not recognised")
         run.ob("C09.operands", f, f.node, not missing,
                construct=f"{name}: kinds of {sorted(got)} reach the result; operands are {sorted(need)}",
                why=f"the kind of operand(s) {sorted(missing)} does not reach the result: "
@@ -215,7 +239,7 @@ def _joined_children(P, C, f: Func, depth=0):
     return out
 
 
-def _kind_expr_ok(e, f: Func):
+def _kind_expr_ok(e, f: Func, _depth=0):
     """Is *e* a kind-valued expression form?"""
     if isinstance(e, ast.Call):
         d = dotted(e.func) or ""
@@ -223,6 +247,19 @@ def _kind_expr_ok(e, f: Func):
             return True
         if d.startswith("self.rec") or d.startswith("self.map_"):
             return True
+        if d in ("tuple", "list") and len(e.args) == 1 and not e.keywords:
+            return _kind_expr_ok(e.args[0], f, _depth)
+        if d.startswith("self.") and d.count(".") == 1 and f.cls is not None and _depth < 3:
+            # a helper of the class: what it returns
+            h = f.cls.methods.get(d[5:])
+            if h is not None:
+                rets = [r for r in ast.walk(h.node) if isinstance(r, ast.Return) and r.value is not None]
+                return bool(rets) and all(
+                    _kind_expr_ok(r.value, h, _depth + 1) or _element_of_kinds(r.value, h)
+                    for r in rets)
+    if isinstance(e, ast.Subscript) and isinstance(e.value, ast.Call) \
+            and (dotted(e.value.func) or "").startswith("self.map_"):
+        return True
     if isinstance(e, ast.Subscript):
         d = dotted(e.value) or ""
         if d in ("self.global_table", "self.local_table"):
@@ -240,6 +277,95 @@ def _kind_expr_ok(e, f: Func):
                                                  dotted(s.value.func) == "func.get_result_kinds"):
                     return True
     return False
+
+
+def _element_of_kinds(e, h: Func):
+    """<parameter>[<constant>] in a helper that is handed a tuple of kinds."""
+    return isinstance(e, ast.Subscript) and isinstance(e.value, ast.Name) \
+        and e.value.id in h.params and isinstance(e.slice, ast.Constant)
+
+
+def _single(run, P):
+    """A call in expression context stands for one value: its kind is taken from a
+    function's result kinds only after 'exactly one result' has been tested, on every
+    return chain from map_call / map_call_with_kwargs down to get_result_kinds."""
+    from .util import path_conditions
+    C = P.cls(f"{DATA}.KindInferenceMapper")
+
+    def len_test(conds, env):
+        for t, pol in conds:
+            m = t.replace(" ", "")
+            if m.startswith("len(") and ((m.endswith(")!=1") and pol is False)
+                                          or (m.endswith(")==1") and pol is True)):
+                return True
+        return False
+
+    def feasible(conds, env):
+        for t, pol in conds:
+            if t in env and env[t] is not None and bool(env[t]) != pol:
+                return False
+        return True
+
+    def checked(h: Func, env, depth, trail):
+        """Every feasible return of h hands back a value that passed the test."""
+        if depth > 4:
+            raise AnalysisError("C09.single: return chain too deep")
+        rets = [r for r in ast.walk(h.node) if isinstance(r, ast.Return) and r.value is not None
+                and not any(isinstance(fn, (ast.FunctionDef, ast.Lambda)) and fn is not h.node
+                            and any(x is r for x in ast.walk(fn)) for fn in ast.walk(h.node))]
+        if not rets:
+            raise AnalysisError(f"C09.single: {h.qualname} returns nothing")
+        bad = []
+        for r in rets:
+            conds = path_conditions(h.node, r)
+            if not feasible(conds, env):
+                continue
+            if len_test(conds, env):
+                continue
+            v = r.value
+            if isinstance(v, ast.Subscript):
+                v = v.value
+            inner = [x for x in ast.walk(v) if isinstance(x, ast.Call)
+                     and (dotted(x.func) or "").startswith("self.")
+                     and (dotted(x.func) or "").count(".") == 1
+                     and P.method(C, x.func.attr) is not None
+                     and x.func.attr not in ("rec",)]
+            # the outermost helper decides: a checking wrapper around an unchecked call is fine
+            outer = [x for x in inner if not any(
+                y is not x and any(z is x for z in ast.walk(y)) for y in inner)]
+            if not outer:
+                bad.append((h, r))
+                continue
+            for c in outer:
+                m = P.method(C, c.func.attr)
+                e2 = {}
+                ps = m.params[1:]
+                dflt = m.node.args.defaults
+                for a_, d_ in zip(reversed(ps), reversed(dflt)):
+                    e2[a_] = d_.value if isinstance(d_, ast.Constant) else None
+                for i, a_ in enumerate(c.args):
+                    if i < len(ps):
+                        e2[ps[i]] = a_.value if isinstance(a_, ast.Constant) else None
+                for k in c.keywords:
+                    if k.arg:
+                        e2[k.arg] = k.value.value if isinstance(k.value, ast.Constant) else None
+                bad.extend(checked(m, e2, depth + 1, trail + [m.name]))
+        return bad
+
+    n = 0
+    for name in ("map_call", "map_call_with_kwargs"):
+        h = P.method(C, name)
+        if h is None:
+            raise AnalysisError(f"KindInferenceMapper.{name} not found")
+        bad = checked(h, {}, 0, [name])
+        n += 1
+        where = bad[0] if bad else (h, h.node)
+        run.ob("C09.single", where[0], where[1], not bad,
+               construct=f"{name}: the result kinds pass an 'exactly one result' test before "
+                         f"one of them becomes the kind of the call"
+                         + (f" (unchecked: {where[0].name}: {norm(where[1])[:70]})" if bad else ""),
+               why="a function with two results used inside an expression is given the kind "
+                   "of its first result while the value is the tuple of both")
 
 
 def _total(run, P):
